@@ -1641,6 +1641,12 @@ class Executor:
 
     def ex_Dict(self, e, frame, hint=None, want_seq=False):
         if e.keys:
+            opaque = getattr(frame.contract, 'opaque_dict_literal', None)
+            if opaque is not None:
+                # the literal's values are evaluated (calls inside them happen), the mapping itself is an opaque value
+                for v in e.values:
+                    self.eval(v, frame)
+                return opaque.fresh('dictlit')
             raise Unsupported('non-empty dict literal')
         if isinstance(hint, MapS):
             return hint.empty()
